@@ -7,12 +7,9 @@ Corpus: RichDB databases (valid), the slices the REAL slicer cuts out of them, a
 missing $d, reordered $f, undeclared constant, wrong typecode, dropped hypothesis / axiom / float / variable, duplicated
 label, …).  For every (database, label) pair the driver command `mmcheck` is compared with
 
-  * `mm.Verifier(strict=True)` restricted to the proof of `label` (`TargetVerifier`: other proofs are not run, the run
-    stops after the target), and
-  * `SpecVerifier`: the same with the three places where mm.py deviates from the Metamath specification repaired
-    (see `SPEC_NOTES`).
-
-and `mmcheckdb` with `mm.verify(db, strict=True)`.
+`mm.Verifier(strict=True)` restricted to the proof of `label` (`TargetVerifier`: other proofs are not run, the run
+stops after the target), and `mmcheckdb` with `mm.verify(db, strict=True)`.  (mm.py has been repaired in the four places
+where it deviated from the Metamath specification, `SPEC_NOTES`; the two verifiers are expected to agree everywhere.)
 """
 from __future__ import annotations
 
@@ -27,12 +24,11 @@ import sys
 from . import core, mm, mmgen2, sx
 
 SPEC_NOTES = [
-    'labels: the specification wants every label unique in the database; mm.py only looks at the labels that are active '
-    '(a $e/$f label of a closed block may be used again)',
-    '$d check of a proof step: the specification checks against all $d active at the $p; mm.py restricts them to the '
-    'mandatory variables of the $p, so a correct proof with a $d on a dummy variable is rejected',
-    '$f: the specification wants the variable to be an active variable; mm.py accepts a declared constant there',
-    'mm.py only knows compressed proofs (an uncompressed proof is an AssertionError); the Lean verifier also runs normal proofs',
+    'labels are unique in the whole database (mm.py used to look at the active labels only)',
+    'the $d check of a proof step uses all $d active at the $p, also those on dummy variables (mm.py used to restrict them to the '
+    'mandatory variables of the $p and rejected e.g. mm-benchmarks/disjointness-alt-lemma.mm)',
+    'the variable of a $f has to be an active variable (mm.py used to accept a declared constant)',
+    'normal (uncompressed) proofs are run as well (mm.py used to know compressed proofs only)',
 ]
 
 
@@ -142,53 +138,9 @@ class TargetVerifier(mm.Verifier):
         raise Done
 
 
-class SeenDict(dict):
-    """`in` also answers yes for labels that have been popped (labels are unique in the whole database)"""
-
-    def __init__(self):
-        super().__init__()
-        self.ever = set()
-
-    def __setitem__(self, k, v):
-        self.ever.add(k)
-        super().__setitem__(k, v)
-
-    def __contains__(self, k):
-        return k in self.ever
-
-
-class SpecVerifier(TargetVerifier):
-    """TargetVerifier with mm.py's three deviations from the specification repaired (SPEC_NOTES); target None = all proofs"""
-
-    def __init__(self, target):
-        super().__init__(target)
-        self.labels = SeenDict()
-
-    def check_symbols(self, label, toks, need_float=True):
-        super().check_symbols(label, toks, need_float)
-        if not need_float:     # a $f statement: [typecode, variable]
-            allv = set().union(*[f.v for f in self.frames])
-            if toks[1] not in allv:
-                raise mm.VerifyError(f'{label}: {toks[1]} is not an active variable')
-
-    def verify_proof(self, label, assertion, proof):
-        if self.target is not None and label != self.target:
-            return
-        _, dvs, fhyps, ehyps, stmt = assertion
-        active = {p for fr in self.frames for p in fr.d}
-        if proof and proof[0] != '(':
-            # a normal proof: a list of labels
-            stack = []
-            for lab in proof:
-                if not dict.__contains__(self.labels, lab):
-                    raise mm.VerifyError(f'unknown label {lab}')
-                self.apply(stack, self.labels[lab], active)
-            if len(stack) != 1 or stack[0] != stmt:
-                raise mm.VerifyError('normal proof does not prove the statement')
-        else:
-            mm.Verifier.verify_proof(self, label, ('assert', active, fhyps, ehyps, stmt), proof)
-        if self.target is not None:
-            raise Done
+class AllVerifier(mm.Verifier):
+    def __init__(self, target=None):
+        super().__init__(strict=True)
 
 
 def py_lemma(cls, stmts, label):
@@ -204,12 +156,9 @@ def py_lemma(cls, stmts, label):
     return False
 
 
-def py_db(stmts, spec=False):
+def py_db(stmts):
     try:
-        if spec:
-            SpecVerifier(None).run(stmts)
-        else:
-            mm.verify(stmts, strict=True)
+        mm.verify(stmts, strict=True)
         return True
     except RecursionError:
         raise
@@ -402,10 +351,20 @@ HAND = [
         ax1 $a |- ( foo x y ) $.
         $d x y $.
         th $p |- ( foo z z ) $= ( ax1 ) AAB $.''', ['th']),
-    ('its slice', '''$c #ElementVariable #Pattern #SetVariable #Symbol #Variable ( ) foo |- $. $v x y z $. $d x y $.
+    ('its slice before the repair of the slicer', '''$c #ElementVariable #Pattern #SetVariable #Symbol #Variable ( ) foo |- $. $v x y z $. $d x y $.
         x-f $f #Pattern x $. y-f $f #Pattern y $. z-f $f #Pattern z $.
         ax1 $a |- ( foo x y ) $.
         ${ th $p |- ( foo z z ) $= ( ax1 ) AAB $. $}''', ['th']),
+    ('its slice after the repair', '''$c #ElementVariable #Pattern #SetVariable #Symbol #Variable ( ) foo |- $. $v x y z $.
+        x-f $f #Pattern x $. y-f $f #Pattern y $. z-f $f #Pattern z $.
+        ax1 $a |- ( foo x y ) $. $d x y $.
+        ${ th $p |- ( foo z z ) $= ( ax1 ) AAB $. $}''', ['th']),
+    ('top-level $e', '''$c |- ( ) foo #Pattern $. $v x $. x-f $f #Pattern x $. h $e |- ( foo x x ) $.
+        th $p |- ( foo x x ) $= ( ) B $.''', ['th']),
+    ('top-level $e: slice before the repair', '''$c #ElementVariable #Pattern #SetVariable #Symbol #Variable ( ) foo |- $. $v x $. x-f $f #Pattern x $.
+        ${ th $p |- ( foo x x ) $= ( ) B $. $}''', ['th']),
+    ('top-level $e: slice after the repair', '''$c #ElementVariable #Pattern #SetVariable #Symbol #Variable ( ) foo |- $. $v x $. x-f $f #Pattern x $.
+        h $e |- ( foo x x ) $.  ${ th $p |- ( foo x x ) $= ( ) B $. $}''', ['th']),
 ]
 
 
@@ -535,31 +494,28 @@ def main(argv=None):
     assert len(answers) == len(lines)
     stats = collections.Counter()
     by_kind = collections.defaultdict(collections.Counter)
-    disagreements, spec_only, hand_rows = [], [], []
+    disagreements, hand_rows = [], []
     for (ci, l), a in zip(meta, answers):
         origin, kind, st, _ = cases[ci]
         if a not in ('true', 'false'):
             print('driver answered', a[:100]); return 2
         lean = a == 'true'
         if l is None:
-            py, sp = py_db(st), py_db(st, spec=True)
+            py = py_db(st)
             what = 'db'
         else:
-            py, sp = py_lemma(TargetVerifier, st, l), py_lemma(SpecVerifier, st, l)
+            py = py_lemma(TargetVerifier, st, l)
             what = 'lemma'
         stats[f'{what}:pairs'] += 1
         stats[f'{what}:lean-accepts'] += lean
         stats[f'{what}:lean-rejects'] += (not lean)
         stats[f'{what}:agree-with-mm.py'] += (lean == py)
-        stats[f'{what}:agree-with-spec-repaired-mm.py'] += (lean == sp)
         by_kind[f'{origin}/{kind}' if origin not in ('hand', 'real') else origin][('acc' if lean else 'rej')] += 1
         if origin in ('hand', 'real'):
-            hand_rows.append((kind, l, lean, py, sp))
-        if lean != sp:
-            disagreements.append({'origin': origin, 'kind': kind, 'label': l, 'lean': lean, 'mm.py': py, 'spec-mm.py': sp,
+            hand_rows.append((kind, l, lean, py))
+        if lean != py:
+            disagreements.append({'origin': origin, 'kind': kind, 'label': l, 'lean': lean, 'mm.py': py,
                                   'db': mm.print_db(st)[-3000:]})
-        elif lean != py:
-            spec_only.append({'origin': origin, 'kind': kind, 'label': l, 'lean': lean, 'mm.py': py})
     # ---- the theorem C17.slice_verifies against the REAL slicer: WellFormedDb(db) & verifyLemma(db, l)  ==>  verifyLemma(slice_l, l)
     thm = theorem_crosscheck([c for c in cases if c[0] == 'db'])
     print(json.dumps({'databases': args.n, 'real_slices': n_slices, 'cases': len(cases), 'stats': dict(stats),
@@ -567,16 +523,13 @@ def main(argv=None):
     print('per corpus (lean accepts / rejects):')
     for k in sorted(by_kind):
         print('   %-32s acc %5d   rej %5d' % (k, by_kind[k]['acc'], by_kind[k]['rej']))
-    print('hand-written cases and the databases of /repo/generation/mm-benchmarks (label None = whole database): lean / mm.py / spec-repaired mm.py')
+    print('hand-written cases and the databases of /repo/generation/mm-benchmarks (label None = whole database): lean / mm.py')
     for r in hand_rows:
-        print('   %-48s %-6s %-5s %-5s %-5s' % r)
-    print('pairs where Lean == spec-repaired mm.py but != plain mm.py (mm.py deviates from the specification there): %d' % len(spec_only))
-    for k, n in sorted(collections.Counter((d['origin'], d['kind'], 'lean=%s mm.py=%s' % (d['lean'], d['mm.py'])) for d in spec_only).items()):
-        print('    %5d  %s' % (n, k))
-    print('notes on mm.py vs the Metamath specification:')
+        print('   %-48s %-24s %-5s %-5s' % r)
+    print('mm.py follows the Metamath specification in these places (repaired):')
     for n in SPEC_NOTES:
         print('   *', n)
-    print('DISAGREEMENTS with the spec-repaired mm.py: %d' % len(disagreements))
+    print('DISAGREEMENTS between the Lean verifier and mm.py: %d' % len(disagreements))
     for d in disagreements[:10]:
         print(json.dumps(d, indent=1))
     return 1 if disagreements else 0
